@@ -44,21 +44,6 @@ Definition k2_node (t : tree) : bool :=
   end.
 Definition known_K2 (t : tree) : bool := exists_node k2_node t.
 
-(* K3: `a % b` with operands of opposite sign and remainder zero (`-2 % 2`) *)
-Definition mod_zero_opposite (a b : f64) : bool :=
-  f_is_finite a && f_is_finite b && negb (feq a f_zero) && negb (feq b f_zero)
-  && negb (Bool.eqb (f_sign_neg a) (f_sign_neg b)) && feq (ffmod a b) f_zero.
-Definition k3_node (t : tree) : bool :=
-  match t with
-  | TBin BMod l r =>
-      match eval_spec l, eval_spec r with
-      | VNum a, VNum b => mod_zero_opposite a b
-      | _, _ => false
-      end
-  | _ => false
-  end.
-Definition known_K3 (t : tree) : bool := exists_node k3_node t.
-
 (* K4: a relational operator applied to a boolean (`true < 1`): Sass reports an
    error, rsass keeps the text, which is then a true value, equal to itself... *)
 Definition is_vbool (v : val) : bool := match v with VBool _ => true | _ => false end.
@@ -70,8 +55,7 @@ Definition k4_node (t : tree) : bool :=
 Definition known_K4 (t : tree) : bool := exists_node k4_node t.
 
 Definition known_class (t : tree) : Z :=
-  if known_K1 t then 1 else if known_K2 t then 2 else if known_K3 t then 3
-  else if known_K4 t then 4 else 0.
+  if known_K1 t then 1 else if known_K2 t then 2 else if known_K4 t then 4 else 0.
 
 (* ---- correspondence ---- *)
 Definition val_same (a b : val) : bool :=
